@@ -155,7 +155,10 @@ pub fn matches_finding(kf: &KnownFinding, case: &Case, v: &Viol) -> bool {
     }
     match kf.matcher.as_str() {
         // honest hash request whose span straddles the replica's length (= upgrade.start)
-        "c03-hash-straddle" => v.clause == "C03.straddle",
+        // (a clean refusal only: a panic, hang or wrong data in that class is still reported)
+        "c03-hash-straddle" => {
+            v.clause == "C03.straddle" && (v.msg.contains("not served: Err(") || v.msg.contains("not accepted: Err("))
+        }
         _ => false,
     }
 }
@@ -331,6 +334,7 @@ pub struct Summary {
     pub violations: Vec<(u64, String, Case, Viol, CaseOut)>,
     pub known: BTreeMap<String, u64>,
     pub aborted: u64,
+    pub abort_reasons: BTreeMap<String, u64>,
     pub sim_steps: u64,
     pub log_hash: u64,
     pub families: BTreeMap<String, u64>,
@@ -411,8 +415,10 @@ pub fn run_families(opts: &RunOpts, families: Vec<Family>) -> Summary {
                     if out.nontrivial {
                         local.nontrivial.insert(h);
                     }
-                    if out.aborted.is_some() {
+                    if let Some(a) = &out.aborted {
                         local.aborted += 1;
+                        let key: String = a.chars().take(70).collect();
+                        *local.abort_reasons.entry(key).or_insert(0) += 1;
                     }
                     local.sim_steps += out.sim_steps;
                     per_run_hash.lock().unwrap().insert(idx, out.log_hash);
@@ -464,6 +470,9 @@ pub fn run_families(opts: &RunOpts, families: Vec<Family>) -> Summary {
                 g.samples.extend(local.samples);
                 g.violations.extend(local.violations);
                 g.aborted += local.aborted;
+                for (k, v) in local.abort_reasons {
+                    *g.abort_reasons.entry(k).or_insert(0) += v;
+                }
                 g.sim_steps += local.sim_steps;
             });
         }
